@@ -100,7 +100,7 @@ class IdentModel(SeqModel):
         fn = n.get("fn") or ""
         args = n["args"]
         last = fn.split("::")[-1]
-        A_ = lambda i: self.ev(args[i], env)
+        A_ = lambda i: self.arg(n, i, env)
         if "RegexBuilder" in fn or "regex::Regex" in fn:
             if last == "new" and len(args) == 1:
                 if "RegexBuilder" in fn:
